@@ -112,6 +112,7 @@ pub fn child(args: &[String]) -> i32 {
         "c15e2e" => c15::child_e2e(&args[1..]),
         "c18" => c18::child_main(&args[1..]),
         "c18seq" => c18::child_seq(&args[1..]),
+        "c18both" => c18::child_both(&args[1..]),
         "c16" => c16::child_main(&args[1..]),
         "c08crash" => c08::child_crash(&args[1..]),
         _ => 2,
